@@ -70,7 +70,7 @@ func processRestartResult(in *pInput, op pOp) (string, error) {
 	req, _ := json.Marshal(&firstOpRequest{Input: *in, Op: op})
 	cmd := exec.Command(os.Args[0], "firstop")
 	cmd.Stdin = bytes.NewReader(req)
-	cmd.Env = append(os.Environ(), "GORACE=exitcode=0")
+	cmd.Env = append(os.Environ(), "GORACE=exitcode=0 atexit_sleep_ms=0")
 	out, err := cmd.Output()
 	return string(out), err
 }
@@ -879,8 +879,54 @@ func pureCandidates(raw json.RawMessage) []json.RawMessage {
 // concurrent workload is executed as the first thing a fresh -race process
 // does; its race log is read back. Replaying the violation file is the same
 // thing (a replay is a fresh process).
-func coldProcessRaceProbe(b *BatchResult, prop string, seed, run uint64, r *rng) {
+// genNarrowWorkload: 2-3 tasks whose first (and only) calls are of one or two
+// given kinds. Calls that take no common lock create no happens-before edge
+// between the tasks, so a first-use race in process-global state cannot be
+// masked by "accidental" synchronisation through the parser's locks.
+func genNarrowWorkload(r *rng, kinds []string) *wlPure {
 	wl := genBroadWorkload(r)
+	wl.Tasks = nil
+	nt := 2 + r.intn(2)
+	for t := 0; t < nt; t++ {
+		kind := kinds[t%len(kinds)]
+		var ops []pOp
+		for i, in := range wl.Inputs {
+			for _, k := range opsByKind[in.Kind] {
+				if k == kind {
+					ops = append(ops, pOp{Kind: k, In: i, Opt: r.chance(50)})
+				}
+			}
+		}
+		if len(ops) == 0 {
+			continue
+		}
+		first := ops[r.intn(len(ops))]
+		task := []pOp{first}
+		if r.chance(40) {
+			task = append(task, ops[r.intn(len(ops))])
+		}
+		wl.Tasks = append(wl.Tasks, task)
+	}
+	return wl
+}
+
+var allOpKinds = []string{"validate", "modfile", "dsl2proto", "dsl2json", "moddsl2proto", "json2dsl", "proto2dsl", "plaingraph", "wgraph", "assignable", "merge"}
+
+func coldProcessRaceProbe(b *BatchResult, prop string, seed, run uint64, r *rng) {
+	var wl *wlPure
+	q := int(run / 12)
+	switch {
+	case q%3 != 2:
+		// sweep over the kinds: every kind gets its own cold process
+		wl = genNarrowWorkload(r, []string{allOpKinds[(q-q/3)%len(allOpKinds)]})
+		b.Probes["cold_process_probes_one_kind"]++
+	case r.chance(70):
+		wl = genNarrowWorkload(r, []string{r.pick(allOpKinds), r.pick(allOpKinds)})
+		b.Probes["cold_process_probes_two_kinds"]++
+	default:
+		wl = genBroadWorkload(r)
+		b.Probes["cold_process_probes_broad"]++
+	}
 	s := pureSched(r, len(wl.Tasks))
 	s.cfg.MapDen, s.cfg.ClockDen = 0, 0
 	wj, _ := json.Marshal(wl)
@@ -890,13 +936,15 @@ func coldProcessRaceProbe(b *BatchResult, prop string, seed, run uint64, r *rng)
 	if err != nil {
 		return
 	}
-	defer os.RemoveAll(dir)
+	if os.Getenv("VERIF_KEEP_PROBES") == "" {
+		defer os.RemoveAll(dir)
+	}
 	vf := dir + "/v.json"
 	if writeJSON(vf, &v) != nil {
 		return
 	}
 	cmd := exec.Command(os.Args[0], "replay", "-file", vf, "-out", dir+"/res.json")
-	cmd.Env = append(os.Environ(), "GOMAXPROCS=1", "GORACE=log_path="+dir+"/race halt_on_error=0 exitcode=0 history_size=4", "VERIF_RACELOG="+dir+"/race")
+	cmd.Env = append(os.Environ(), "GOMAXPROCS=1", "GORACE=log_path="+dir+"/race halt_on_error=0 exitcode=0 atexit_sleep_ms=0 history_size=4", "VERIF_RACELOG="+dir+"/race")
 	if out, err := cmd.CombinedOutput(); err != nil {
 		b.Probes["cold_process_probe_failed"]++
 		_ = out
